@@ -519,6 +519,7 @@ class Env:
         self.excl = dict(parent.excl) if parent else {}
         self.rel = set(parent.rel) if parent else set()     # known order facts ('lt'|'le', a, b) between terms
         self.sym_facts = sym_facts if sym_facts else (parent.sym_facts if parent else None)
+        self.log = list(parent.log) if parent else []        # exact record of the assumptions made: ('eq'|'ne', t, v)
         self.cache = {}
 
     def copy(self):
@@ -718,6 +719,7 @@ class Env:
         return self._propagate(t, new)
 
     def assume_eq(self, t, v):
+        self.log.append(('eq', t, v))
         if v in self.excl.get(t, ()):
             return False
         return self.assume(t, AV.const(t[1], v))
@@ -745,6 +747,7 @@ class Env:
         return self.av(t).contains(v)
 
     def assume_ne(self, t, v):
+        self.log.append(('ne', t, v))
         cur = self.av(t)
         if cur.is_const():
             return cur.lo != v
